@@ -19,7 +19,8 @@ def attr_types(prog: Program, cls: ClassInfo, attr: str) -> List[str]:
     n_stores = 0
     for k in prog.mro(cls):
         for f in list(k.methods.values()) + list(k.props_set.values()):
-            stores = [n for n in ast.walk(f.node) if isinstance(n, ast.Assign) and any(is_self_attr(t, attr) for t in n.targets)]
+            stores = [n for n in ast.walk(f.node) if isinstance(n, ast.Assign) and any(
+                is_self_attr(t, attr) or (isinstance(t, (ast.Tuple, ast.List)) and any(is_self_attr(e, attr) for e in t.elts)) for t in n.targets)]
             if not stores:
                 continue
             s = summarize(prog, f)
@@ -57,4 +58,9 @@ def _classes_in(prog: Program, t) -> set:
                         for z in subterms(fr[1]):
                             if z[0] == "global" and z[1] in prog.classes:
                                 found.add(z[1])
+        # ... or create_connection(X, ...) with the class itself as the protocol factory
+        if x[0] == "call" and x[1][0] == "meth" and x[1][2] in ("create_connection", "create_datagram_endpoint") and x[2]:
+            for z in subterms(x[2][0]):
+                if z[0] == "global" and z[1] in prog.classes:
+                    found.add(z[1])
     return found
